@@ -39,6 +39,8 @@ CLAIMED["C06"] = ("DESIGN.md#c06", "Lean theorems over models of both precise_di
          "Lean 4 proof over precise_diff/add_duration models + differential correspondence run")
 CLAIMED["C19"] = ("DESIGN.md#c19", "Lean theorems about the range loop for any step/comparison: k-th value computed from the start (no drift), containment, strict monotonicity, stops at the last value not beyond the end, end yielded iff reachable, finite with an explicit bound, contains_iff; unconditional instantiation for naive values, partial for DST zones outside the known findings F15/F16 (Lean counterexamples); correspondence 8x10^4 comparisons, oracle = independent list of start.add(unit=k*n) cut by instants; F24 (range end at the representable limit)",
          "Lean 4 proof over range-loop model + differential correspondence run")
+CLAIMED["C10"] = ("DESIGN.md#c10", "Lean theorems: every Duration operator (neg, abs, +, -, * int/float, / int/float, // int, // / % divmod by a duration or plain timedelta) equals the integer semantics of the native timedelta operator (floor division/modulo, round-half-even proved for divisors of either sign), neg/* int component-wise on years/months, result-type table, comparison/hash read the native slots; correspondence (exact model on the float-exact range, float-faithful model beyond); oracle = the same operator on native timedeltas; known findings F17/F18 (float pipeline beyond 2^31/2^33 s)",
+         "Lean 4 proof over exact-microsecond Duration model + differential correspondence run")
 NA = {}
 def main():
     props = [json.loads(l) for l in open(os.path.join(ROOT, "properties.jsonl"))]
